@@ -29,7 +29,6 @@ import (
 	"reflect"
 	"runtime"
 	"runtime/debug"
-	"runtime/pprof"
 	"sort"
 	"strings"
 	"sync"
@@ -161,7 +160,7 @@ func c16MakeRec(salt, i int, spare bool, maxMap int) c16Rec {
 // canonical forms
 // ---------------------------------------------------------------------------
 
-func c16U32(dst []byte, n int) []byte { return binary.LittleEndian.AppendUint32(dst, uint32(n)) }
+func c16U32(dst []byte, n int) []byte    { return binary.LittleEndian.AppendUint32(dst, uint32(n)) }
 func c16U64(dst []byte, n uint64) []byte { return binary.LittleEndian.AppendUint64(dst, n) }
 
 const c16ValHeader = 9
@@ -398,20 +397,6 @@ func c16CanonRowsFull(rows []parquet.Row) []byte {
 	}
 	return dst
 }
-
-var (
-	_ = io.EOF
-	_ = rand.Int
-	_ = os.TempDir
-	_ = filepath.Join
-	_ = runtime.GC
-	_ = debug.FreeOSMemory
-	_ sync.Mutex
-	_ = time.Now
-	_ = json.Marshal
-	_ encoding.Encoding
-	_ = gen.Req
-)
 
 // ---------------------------------------------------------------------------
 // files with known content
@@ -842,6 +827,7 @@ func c16Entitled(nreaders int, ops []c16Op) (ent [][]int, src []int) {
 	for i := range cur {
 		cur[i] = -1
 	}
+	closed := make([]bool, nreaders) // a closed reader hands out nothing: its r and t create no batch
 	var forever []int
 	for j, op := range ops {
 		code, i := c16ParseTok(op.Tok)
@@ -849,17 +835,25 @@ func c16Entitled(nreaders int, ops []c16Op) (ent [][]int, src []int) {
 		if i >= 0 && i < nreaders {
 			switch code {
 			case 'r':
-				cur[i] = j
+				cur[i] = -1
+				if !closed[i] {
+					cur[i] = j
+				}
 			case 't':
 				cur[i] = -1
-				forever = append(forever, j)
+				if !closed[i] {
+					forever = append(forever, j)
+				}
 			case 'k':
 				if cur[i] >= 0 {
 					s = cur[i]
 					forever = append(forever, j)
 				}
-			case 's', 'c':
+			case 's':
 				cur[i] = -1
+			case 'c':
+				cur[i] = -1
+				closed[i] = true
 			}
 		}
 		src = append(src, s)
@@ -1084,6 +1078,9 @@ func (r *c16Reader) readTyped(n int, reuse bool) (held []c16Rec, first int64, er
 		}
 	default: // whole file helpers
 		first = 0
+		if r.closed {
+			return nil, 0, io.EOF
+		}
 		if n%2 == 0 {
 			held, err = parquet.Read[c16Rec](bytes.NewReader(r.b.data), int64(len(r.b.data)))
 		} else {
@@ -1780,8 +1777,8 @@ type c16BufCase struct {
 	Salt       int    `json:"salt"`
 	Batches    []int  `json:"batches"`
 	SwapAt     *int   `json:"swap_at,omitempty"` // rows k and k+1 are written in the opposite order
-	SortAfter  int    `json:"sort_after"`  // sort.Sort after this batch (-1: never)
-	ResetAfter int    `json:"reset_after"` // Reset after this batch (-1: never)
+	SortAfter  int    `json:"sort_after"`        // sort.Sort after this batch (-1: never)
+	ResetAfter int    `json:"reset_after"`       // Reset after this batch (-1: never)
 	ReadBatch  int    `json:"read_batch"`
 	ChurnSeed  int64  `json:"churn_seed"`
 	Workers    int    `json:"workers"`
@@ -2389,11 +2386,6 @@ func c16RunCaller(c *core.Ctx, cs *c16CallerCase, bucket string) bool {
 // ---------------------------------------------------------------------------
 
 func runC16(c *core.Ctx) {
-	if pf := os.Getenv("C16_PROF"); pf != "" {
-		f, _ := os.Create(pf)
-		pprof.StartCPUProfile(f)
-		defer pprof.StopCPUProfile()
-	}
 	parquet.VerifSetPoison(true)
 	debug.SetGCPercent(1000) // the live heap is a few MB: without this the collector runs thousands of times
 	if runtime.GOMAXPROCS(0) > 4 {
@@ -2468,7 +2460,7 @@ func runC16(c *core.Ctx) {
 
 	lap("corpus histories")
 	// ---- random histories
-	nh := c.N(260, 2600)
+	nh := c.N(260, 2000)
 	for i := 0; i < nh; i++ {
 		cs := c16GenHist(rng, pool, 40)
 		bucket := "held/rows"
